@@ -179,11 +179,25 @@ func (s *Scenario) RandomWrite(rng *rand.Rand) {
 }
 
 // Burst runs n writes spread over nWriters goroutines with small random virtual gaps, and waits for them.
-func (s *Scenario) Burst(n, nWriters int) {
+func (s *Scenario) Burst(n, nWriters int) { s.BurstFn(n, nWriters)() }
+
+// BurstFn draws the writers' PRNGs now (on the caller's goroutine) and returns the function that runs the burst.
+func (s *Scenario) BurstFn(n, nWriters int) func() {
+	rngs := make([]*rand.Rand, nWriters)
+	for i := range rngs {
+		rngs[i] = rand.New(rand.NewPCG(s.Rng.Uint64(), uint64(i)))
+	}
+
+	return func() { s.burst(n, rngs) }
+}
+
+func (s *Scenario) burst(n int, rngs []*rand.Rand) {
 	var wg sync.WaitGroup
 
+	nWriters := len(rngs)
+
 	for i := 0; i < nWriters; i++ {
-		rng := rand.New(rand.NewPCG(s.Rng.Uint64(), uint64(i)))
+		rng := rngs[i]
 		cnt := n / nWriters
 
 		wg.Add(1)
